@@ -12,4 +12,5 @@ INVARIANT TypeOK
 INVARIANT VolumeAdditive
 PROPERTY ReadBack
 PROPERTY Locality
+POSTCONDITION CountReport
 CHECK_DEADLOCK FALSE
